@@ -7,7 +7,7 @@
    LZ13 header: 8 bytes (wrapper + LZ11 header) for a non-empty input below 16 MiB; 12 bytes when the
    extended size form is written (empty input - the repair of F12 - or 16 MiB and more). *)
 From Coq Require Import List Arith NArith Bool Lia.
-From Mila Require Import Lib.Bytes Lib.Machine Model.LZCore Model.LZ10 Model.LZ11 Proofs.LZSizeProofs.
+From Mila Require Import Lib.Bytes Lib.Machine Model.LZCore Model.LZ10 Model.LZ11 Proofs.LZSizeProofs Proofs.LZRoundTripExt Proofs.LZFormat.
 Import ListNotations.
 
 (* header + input length + one flag byte per eight input bytes *)
@@ -29,6 +29,31 @@ Theorem C10_periodic_lz13 : forall m p x c, periodic p x -> 1 <= p <= 4096 -> (l
   let refs := (length x - p + 4095) / 4096 + 1 in
   length c <= (if andb (0 <? lenN x)%N (lenN x <? 2 ^ 24)%N then 8 else 12) + (p + 2) + 4 * refs + ((p + 2) + refs + 7) / 8.
 Proof. exact compress13_periodic. Qed.
+
+(* the same four bounds for the EXPORTED functions (size guards of F21 in front: compress10_o, compress13_o): whenever
+   compression returns Ok - no size hypothesis - the output obeys the bounds *)
+Theorem C10_exported_lz10 : forall x c, compress10_o x = Ok c ->
+  length c <= 4 + length x + (length x + 7) / 8 /\
+  (forall p, periodic p x -> 1 <= p <= 4096 ->
+     let refs := (length x - p + 17) / 18 + 1 in
+     length c <= 4 + (p + 2) + 2 * refs + ((p + 2) + refs + 7) / 8).
+Proof.
+  intros x c Hc. destruct (compress10_o_ok_inv x c Hc) as [_ ->].
+  split; [exact (compress10_expansion x) | intros p Hp Hr; exact (compress10_periodic p x Hp Hr)].
+Qed.
+
+Theorem C10_exported_lz13 : forall m x c, compress13_o m x = Ok c ->
+  let hdr := if andb (0 <? lenN x)%N (lenN x <? 2 ^ 24)%N then 8 else 12 in
+  length c <= hdr + length x + (length x + 7) / 8 /\
+  (forall p, periodic p x -> 1 <= p <= 4096 ->
+     let refs := (length x - p + 4095) / 4096 + 1 in
+     length c <= hdr + (p + 2) + 4 * refs + ((p + 2) + refs + 7) / 8).
+Proof.
+  intros m x c Hc. destruct (compress13_o_ok_inv m x c Hc) as [Hn Hc'].
+  assert (H63 : (lenN x < 2 ^ 63)%N).
+  { change (2 ^ 32)%N with 4294967296%N in Hn. change (2 ^ 63)%N with 9223372036854775808%N. lia. }
+  split; [exact (compress13_expansion m x c H63 Hc') | intros p Hp Hr; exact (compress13_periodic m p x c Hp Hr H63 Hc')].
+Qed.
 
 (* the lemma that carries the argument: from position max(p,2) on, the search reports the whole look-ahead *)
 Theorem C10_longest_match : forall L x d, 3 <= L -> periodic d x -> 2 <= d <= 4096 ->
